@@ -54,7 +54,9 @@ class C07(Check):
         net = models.RefNet(spec)
         ops = []
         kinds = {'S-update_var': ['one', 'all', 'arr', 'sub'], 'S-apply-values': ['nv', 'nv', 'one', 'ev'],
-                 'S-edges': ['edge', 'ev', 'one'], 'S-compile-between': ['nv', 'ev', 'one', 'all'], 'S-mixed': ['one', 'all', 'arr', 'sub', 'nv', 'ev', 'edge', 'copy']}[stratum]
+                 'S-edges': ['edge', 'ev', 'one', 'derive', 'edge'], 'S-compile-between': ['nv', 'ev', 'one', 'all'],
+                 'S-mixed': ['one', 'all', 'arr', 'sub', 'nv', 'ev', 'edge', 'copy', 'derive', 'adapt', 'adapt']}[stratum]
+        derived = False
         opnames = sorted({o for (_, o) in net.inst})
         for j in range(rng.randint(1, 6)):
             k = rng.choice(kinds)
@@ -69,8 +71,23 @@ class C07(Check):
                     return -rng.randint(1, 40) / 16
                 return rng.randint(1, 60) / 16
             have = [n for n in nodes if (n, opn) in net.inst]
-            if k == 'one':
-                ops.append({'op': 'update_var', 'node_vars': {f'{rng.choice(have)}/{opn}/{var}': val()}})
+            on = rng.choice(['T', 'D']) if derived else 'T'
+            if k == 'derive':
+                if not derived and depth == 1 and len(nodes) >= 2:
+                    pairs = [(a, b) for a in nodes for b in nodes
+                             if not any(e[0].startswith(a + '/') and e[1].startswith(b + '/') for e in flat_edges)]
+                    if pairs:
+                        a, b = rng.choice(pairs)
+                        (oa, ia), (ob, ib) = [[(o, i) for (n, o), i in net.inst.items() if n == x][0] for x in (a, b)]
+                        ops.append({'op': 'derive', 'edge': [f"{a}/{oa}/{models.LIB[ia['lib']]['out']}",
+                                                             f"{b}/{ob}/{models.LIB[ib['lib']]['in']}",
+                                                             {'weight': rng.randint(-40, 40) / 16 or 0.5}]})
+                        derived = True
+            elif k == 'adapt':
+                ops.append({'op': 'adapt', 'by_path': rng.random() < 0.6, 'node': rng.choice(have), 'opn': opn, 'var': var,
+                            'val': val(), 'on': on})
+            elif k == 'one':
+                ops.append({'op': 'update_var', 'on': on, 'node_vars': {f'{rng.choice(have)}/{opn}/{var}': val()}})
             elif k in ('all', 'arr'):
                 path = '/'.join(['all'] * depth)
                 tg = [n for n in targets(nodes, spec, path) if (n, opn) in net.inst]
@@ -109,7 +126,7 @@ class C07(Check):
                 top = spec.get('edges') or []
                 if top:
                     e = rng.choice(top)
-                    ops.append({'op': 'update_var', 'node_vars': {},
+                    ops.append({'op': 'update_var', 'on': on, 'node_vars': {},
                                 'edge_vars': [[e[0], e[1], {'weight': rng.randint(-40, 40) / 16 or 0.5}]]})
             elif k == 'copy':
                 ops.append({'op': 'deepcopy_continue'})
@@ -162,29 +179,77 @@ class C07(Check):
         if len(set(flat_nodes.values())) < len(flat_nodes):
             bump('shared_nt')
         ref = models.RefNet(copy.deepcopy(spec))
+        refs = {'T': ref}
         expected = []     # per observation: (label, RefNet)
         obsv.submit(snapshot(w.objs['T']), 'obs_both')
         expected.append(('construction', copy.deepcopy(ref), None))
         n_over = 0
         for k, op in enumerate(ops):
             if op['op'] == 'update_var':
+                on = op.get('on', 'T') if op.get('on', 'T') in w.objs else 'T'
+                rf = refs[on]
                 nv = op.get('node_vars') or {}
-                out = w.do({'op': 'update_var', 'obj': 'T', 'node_vars': nv, 'edge_vars': op.get('edge_vars') or []})
+                out = w.do({'op': 'update_var', 'obj': on, 'node_vars': nv, 'edge_vars': op.get('edge_vars') or []})
                 if out['status'] != 'ok':
                     res['violations'].append({'law': 'L-op', 'cls': 'loud', 'key': 'update_var',
                                               'detail': f'op #{k} update_var({json.dumps(op)[:200]}) raised {out.get("exc")}: {out.get("msg")}'})
                     break
-                self._apply_ref(ref, flat_nodes, spec, nv)
+                self._apply_ref(rf, flat_nodes, spec, nv)
                 for s, t, a in op.get('edge_vars') or []:
-                    self._set_edge(ref, s, t, a)
+                    self._set_edge(rf, s, t, a)
                     bump('edge_update')
                 for key, v in nv.items():
                     bump('array_update' if isinstance(v, list) else ('wildcard_update' if 'all' in key.split('/') else 'single_update'))
                 n_over += 1
-                obsv.submit(snapshot(w.objs['T']), 'obs_both')
-                expected.append((f'after op #{k} update_var', copy.deepcopy(ref), None))
+                # every live circuit is observed: an override on one must not show up on the other
+                for name_, rf_ in refs.items():
+                    obsv.submit(snapshot(w.objs[name_]), 'obs_both')
+                    expected.append((f'after op #{k} update_var on {on}: circuit {name_}', copy.deepcopy(rf_), None))
+            elif op['op'] == 'derive':
+                # a second circuit derived from T by adding an edge (update_template, not in place)
+                s_, t_, a_ = op['edge']
+                try:
+                    w.objs['D'] = w.objs['T'].update_template(name='derived', edges=[(s_, t_, None, dict(a_))])
+                except Exception as e:
+                    res['violations'].append({'law': 'L-op', 'cls': 'loud', 'key': 'derive',
+                                              'detail': f'op #{k} update_template(edges=[...]) raised {type(e).__name__}: {e}'})
+                    break
+                refs['D'] = copy.deepcopy(refs['T'])
+                refs['D'].edges.append([s_, t_, dict(a_)])
+                bump('derive')
+                for name_, rf_ in refs.items():
+                    obsv.submit(snapshot(w.objs[name_]), 'obs_both')
+                    expected.append((f'after op #{k} derive: circuit {name_}', copy.deepcopy(rf_), None))
+            elif op['op'] == 'adapt':
+                # pyrates.utility.adapt_circuit returns an updated COPY; the circuit it was given (an object, or the
+                # template cached under a YAML path) must stay as it was
+                from pyrates.utility import adapt_circuit
+                on = op.get('on', 'T') if op.get('on', 'T') in w.objs else 'T'
+                src = w.objs[on]
+                if op.get('by_path') and spec.get('build') == 'yaml' and on == 'T':
+                    src = f"m_T/{spec['name']}"
+                    bump('adapt_by_path')
+                if (op['node'], op['opn']) not in refs[on].inst:
+                    continue
+                try:
+                    A = adapt_circuit(src, {'k0': op['val']}, {'k0': {'vars': [f"{op['opn']}/{op['var']}"], 'nodes': [op['node']]}})
+                except Exception as e:
+                    res['violations'].append({'law': 'L-op', 'cls': 'loud', 'key': 'adapt_circuit',
+                                              'detail': f'op #{k} adapt_circuit raised {type(e).__name__}: {e}'})
+                    break
+                bump('adapt')
+                n_over += 1
+                tmp = copy.deepcopy(refs[on])
+                tmp.set_value(op['node'], op['opn'], op['var'], float(op['val']))
+                obsv.submit(snapshot(A), 'obs_both')
+                expected.append((f'op #{k} adapt_circuit result', tmp, None))
+                for name_, rf_ in refs.items():
+                    obsv.submit(snapshot(w.objs[name_]), 'obs_both')
+                    expected.append((f'after op #{k} adapt_circuit (source must be unchanged): circuit {name_}',
+                                     copy.deepcopy(rf_), None))
             elif op['op'] == 'deepcopy_continue':
-                w.objs['T'] = copy.deepcopy(w.objs['T'])
+                if spec.get('build') != 'yaml':      # (a YAML-loaded T stays the path-cached object for adapt-by-path)
+                    w.objs['T'] = copy.deepcopy(w.objs['T'])
             elif op['op'] == 'compile_values':
                 tmp = copy.deepcopy(ref)
                 self._apply_ref(tmp, flat_nodes, spec, op['node_values'])
